@@ -341,6 +341,14 @@ func (m *Map[K, V]) decodeInto(target any) error {
 			continue
 		}
 
+		// A field promoted from an embedded struct takes its key from this
+		// mapping only if the embedded struct is inlined. Otherwise (as in
+		// yaml.v3) the embedded struct is an ordinary field, and its fields
+		// are reached through it.
+		if len(field.Index) > 1 && !promotedThroughInline(targetValue.Type(), field.Index) {
+			continue
+		}
+
 		// No worries if the tag is not there - apply defaults.
 		tag, _ := field.Tag.Lookup("yaml")
 
@@ -440,6 +448,22 @@ func (m *Map[K, V]) decodeInto(target any) error {
 
 // Compile-time check that *Map[string,any] is an Unmarshaler
 var _ Unmarshaler = (*MapSA)(nil)
+
+// promotedThroughInline reports whether every embedded struct on the way to
+// the promoted field at index (within t) is tagged `yaml:",inline"`.
+func promotedThroughInline(t reflect.Type, index []int) bool {
+	for _, i := range index[:len(index)-1] {
+		if t.Kind() == reflect.Pointer {
+			t = t.Elem()
+		}
+		f := t.Field(i)
+		if tag, _ := f.Tag.Lookup("yaml"); !f.Anonymous || tag != ",inline" {
+			return false
+		}
+		t = f.Type
+	}
+	return true
+}
 
 // UnmarshalOrdered unmarshals a value into this map.
 // K must be string, src must be *Map[string, any], and each value in src must
